@@ -31,6 +31,8 @@ DEFAULTS = {
     'spi_pop': '..',
     'view_decodes_again': False,
     'filemap_per_instance': True,
+    'traverser_str_decodes_again': False,
+    'traverser_view_selector': '@@',
 }
 
 REMAINDERS = {'(?P<%s>.*?)': False, '(?P<%s>(?s:.*?))': True}
@@ -339,6 +341,56 @@ def extract(src, problems):
                 and len(c.args) == 2 and isinstance(c.args[0], ast.Constant)
                 and isinstance(c.args[1], ast.Tuple) and not c.args[1].elts]
         vals['traverser_subpath_key'] = _one(keys, "matchdict.get(<key>, ())")
+        # the branch for a '{subpath}' placeholder (a str in the matchdict): `if not is_nonstr_iter(subpath):
+        # subpath = <splitter>(subpath)` -- which splitter is a value fact (does it decode the routed text again?)
+        key = vals['traverser_subpath_key']
+        branches = []
+        for n in ast.walk(call):
+            if isinstance(n, ast.If) and isinstance(n.test, ast.UnaryOp) and isinstance(n.test.op, ast.Not) \
+                    and isinstance(n.test.operand, ast.Call) and isinstance(n.test.operand.func, ast.Name) \
+                    and n.test.operand.func.id == 'is_nonstr_iter' and len(n.test.operand.args) == 1 \
+                    and isinstance(n.test.operand.args[0], ast.Name) and n.test.operand.args[0].id == key:
+                branches.append(n)
+        if len(branches) != 1:
+            raise ValueError('expected one `if not is_nonstr_iter(%s)` in ResourceTreeTraverser.__call__, found %d'
+                             % (key, len(branches)))
+        br = branches[0]
+        if br.orelse or len(br.body) != 1:
+            raise ValueError('the str-%s branch is not a single statement' % key)
+        st_ = br.body[0]
+        if not (isinstance(st_, ast.Assign) and len(st_.targets) == 1 and isinstance(st_.targets[0], ast.Name)
+                and st_.targets[0].id == key and isinstance(st_.value, ast.Call) and isinstance(st_.value.func, ast.Name)
+                and len(st_.value.args) == 1 and not st_.value.keywords and isinstance(st_.value.args[0], ast.Name)
+                and st_.value.args[0].id == key):
+            raise ValueError('the str-%s branch is not `%s = f(%s)`: %s' % (key, key, key, ast.unparse(st_)))
+        splitter = st_.value.func.id
+        defs = [n for n in tr.tree.body if isinstance(n, (ast.FunctionDef, ast.Assign, ast.ImportFrom, ast.Import, ast.ClassDef))
+                and splitter in ([n.name] if isinstance(n, (ast.FunctionDef, ast.ClassDef)) else
+                                 [a.asname or a.name for a in n.names] if isinstance(n, (ast.ImportFrom, ast.Import)) else
+                                 [t.id for t in n.targets if isinstance(t, ast.Name)])]
+        if len(defs) != 1 or not isinstance(defs[0], ast.FunctionDef):
+            raise ValueError('%s is not bound exactly once, by a def of traversal.py' % splitter)
+        vals['traverser_str_decodes_again'] = SPLITTERS[splitter]
+        # blind pin of the whole function with the splitter name of that branch masked
+        import copy
+        masked = copy.deepcopy(call)
+        for n in ast.walk(masked):
+            if isinstance(n, ast.If) and ast.dump(n) == ast.dump(br):
+                n.body[0].value.func.id = 'FACT_SPLITTER'
+        shapes['pyramid/traversal.py:ResourceTreeTraverser.__call__[blind,masked]'] = blind_shape(masked)
+        # class attribute VIEW_SELECTOR: a two-character string constant (the code compares segment[:2] with it)
+        cls = tr.find('ResourceTreeTraverser')
+        sel = [n.value for n in cls.body if isinstance(n, ast.Assign) and len(n.targets) == 1
+               and isinstance(n.targets[0], ast.Name) and n.targets[0].id == 'VIEW_SELECTOR']
+        if len(sel) != 1 or not (isinstance(sel[0], ast.Constant) and isinstance(sel[0].value, str) and len(sel[0].value) == 2):
+            raise ValueError('ResourceTreeTraverser.VIEW_SELECTOR is not one two-character string constant')
+        vals['traverser_view_selector'] = sel[0].value
+        # ... and the class body holds nothing but the two key constants and the two methods
+        kinds = [(type(n).__name__, getattr(n, 'name', None) or (n.targets[0].id if isinstance(n, ast.Assign) and
+                  isinstance(n.targets[0], ast.Name) else None)) for n in F.strip_doc(cls).body[0].body]
+        want = [('Assign', 'VH_ROOT_KEY'), ('Assign', 'VIEW_SELECTOR'), ('FunctionDef', '__init__'), ('FunctionDef', '__call__')]
+        if [k for k in kinds if k != ('Pass', None)] != want:
+            raise ValueError('unexpected class body of ResourceTreeTraverser: %r' % (kinds,))
 
     attempt('traversal literals', f_traversal)
     return vals, shapes
